@@ -26,14 +26,14 @@ ASSUMPTIONS = [
 ]
 TRUSTED = ["taskiq_dependencies 1.5.7 (installed, executed as is)", "CPython asyncio (real, virtual clock)", "vt.sym explorer"]
 BOUNDS = {"graphs": "1 generator dep; generator + async-generator dep; generator dep + failing generator dep", "messages": 1}
-REQUIRED_COVERS = ["inmemory_broker", "gen", "gen_agen", "fail", "nocache", "cm_acm", "chain3", "propagate", "no_propagate", "exception_seen", "timeout", "return"]
+REQUIRED_COVERS = ["inmemory_broker", "behind_plain_nocache", "gen", "gen_agen", "fail", "nocache", "cm_acm", "chain3", "propagate", "no_propagate", "exception_seen", "timeout", "return"]
 
 
 def cases(tier: str, hname: str = "harness") -> List[Any]:
     if hname == "inmemory":
         return [{"propagate": p, "fails": f, "cast_types": ct} for p in (True, False) for f in (True, False) for ct in (True, False)]
     out = []
-    for deps in ("gen", "gen_agen", "fail", "nocache", "cm_acm", "chain3"):
+    for deps in ("gen", "gen_agen", "fail", "nocache", "cm_acm", "chain3", "behind_plain_nocache"):
         for prop in (True, False):
             for ack in _cb.ACKS:
                 out.append({"deps": deps, "propagate": prop, "ack": ack})
@@ -58,7 +58,7 @@ def harness(c: sym.Ctx, case: Dict[str, Any]) -> None:
     c.check(not lab.deadlock and lab.main_done, "no_deadlock")
     opened = [e[1] for e in lab.ev if e[0] == "dep_open"]
     closed = [e[1] for e in lab.ev if e[0] == "dep_close"]
-    want_open = {"gen": ["a"], "gen_agen": ["a", "b"], "fail": ["a", "f"], "nocache": ["c", "d", "e"], "cm_acm": ["m", "n", "a"], "chain3": ["x", "y", "z"]}[deps]
+    want_open = {"gen": ["a"], "gen_agen": ["a", "b"], "fail": ["a", "f"], "nocache": ["c", "d", "e"], "cm_acm": ["m", "n", "a"], "chain3": ["x", "y", "z"], "behind_plain_nocache": ["a"]}[deps]
     c.check(opened == want_open, "dependencies_opened", opened=opened)
     live = [d for d in opened if d != "f"]  # 'f' raises while opening: its own finally does not run (never yielded)
     c.check(sorted(closed) == sorted(live), "each_opened_dependency_closed_exactly_once", opened=opened, closed=closed)
